@@ -409,8 +409,11 @@ def finish(ctx, res, rule, explanation=""):
         cov["trusted_base"] = [str(x) for x in (cov["trusted_base"] if isinstance(cov["trusted_base"], list) else [cov["trusted_base"]])]
     ev = dict(property_id=ctx.prop_id, tier=ctx.tier, seed=ctx.seed, level=res.level, coverage=cov,
               assumptions=res.assumptions, wall_s=round(time.time() - ctx.t0, 2), violations=n_viol)
-    os.makedirs(os.path.join(VERIF, "evidence"), exist_ok=True)
-    json.dump(ev, open(os.path.join(VERIF, "evidence", ctx.prop_id + ".json"), "w"), indent=1, default=str)
+    # a run against another tree than /repo (VERIF_REPO: evaluation of a seeded change in a scratch worktree) must not
+    # overwrite the evidence of /repo itself
+    evdir = os.path.join(VERIF, "evidence") if not os.environ.get("VERIF_REPO") else os.path.join(VERIF, ".build", "evidence-" + os.environ.get("VERIF_BUILD_TAG", "other"))
+    os.makedirs(evdir, exist_ok=True)
+    json.dump(ev, open(os.path.join(evdir, ctx.prop_id + ".json"), "w"), indent=1, default=str)
     print("%s tier=%s seed=%d obligations=%d/%d evaluations=%d distinct_nontrivial=%d violations=%d wall=%.1fs" %
           (ctx.prop_id, ctx.tier, ctx.seed, ndis, nob, res.evaluations, len(res.nontrivial), n_viol, time.time() - ctx.t0))
     return exit_code
